@@ -228,13 +228,14 @@ class LinRef:
                     cell.dead = j - nr - self.n_vol_events - len(self.div_events) + len(self.death_rules)
                     break
         if cell.divided >= 0 or cell.dead >= 0:
-            if idx < n and cell.t < tp[idx]:
+            # (<=: a cell that dies or divides at its very first check still reports its actual first row)
+            if idx < n and cell.t <= tp[idx]:
                 cell.times.append(tp[idx])
                 cell.rows.append([cell.state[s] for s in self.species])
                 cell.vols.append(cell.V)
                 idx += 1
             if idx == 0:
-                raise Structure("cell ended before its first row (edge not modelled)")
+                raise Structure("cell ended before its first row")
 
     # ------------------------------------------------------------ partition
     def partition(self, mother):
